@@ -165,6 +165,10 @@ func runC19(tier string) int {
 		if rf.order%2 == 1 {
 			f.InChunkSeed = o.seed | 1
 		}
+		// ... and every order is another machine: number of CPUs, environment
+		// variables, host name, process id (pigeon asks for none of them on the
+		// pinned tree; see evidence environment_reads)
+		f.EnvSeed = o.seed>>3 | 1
 		c := makeCase(fmt.Sprintf("%s-i%d-o%d", tag, rf.input, rf.order), ins[rf.input], d, f, o.mode, o.seed, 2)
 		if ins[rf.input].Rebuild {
 			// library use with a fault in the process history, and with a build
@@ -393,14 +397,27 @@ func c19Minimise(tw *toolWorld, seed uint64, idx int, in toolInput, sigs map[str
 	// 1. the two cases alone, each in a fresh process
 	rp := &c19Replay{Input: in.Name, Grammar: string(in.Grammar), Sessions: [][]tooldriver.Case{{ca}, {cb}}, Target: [][2]int{{0, 0}, {1, 0}}}
 	kind := "map-order"
-	if ca.Faults.InChunkSeed != cb.Faults.InChunkSeed && differs(rp) {
-		// the two runs also differ in how the grammar bytes arrived: with the
-		// same map order on both sides, is the difference still there?
-		cb2 := cb
-		cb2.MapMode, cb2.MapSeed = ca.MapMode, ca.MapSeed
-		rp2 := &c19Replay{Input: in.Name, Grammar: string(in.Grammar), Sessions: [][]tooldriver.Case{{ca}, {cb2}}, Target: [][2]int{{0, 0}, {1, 0}}}
-		if differs(rp2) {
-			rp, kind = rp2, "read-chunking"
+	pair := func(x, y tooldriver.Case) *c19Replay {
+		return &c19Replay{Input: in.Name, Grammar: string(in.Grammar), Sessions: [][]tooldriver.Case{{x}, {y}}, Target: [][2]int{{0, 0}, {1, 0}}}
+	}
+	if (ca.Faults.InChunkSeed != cb.Faults.InChunkSeed || ca.Faults.EnvSeed != cb.Faults.EnvSeed) && differs(rp) {
+		// the two runs also differ in how the grammar bytes arrived and in what
+		// the process was told about its machine. Make the sides equal one thing
+		// at a time: map order first, then the read chunks, then the machine.
+		c1 := cb
+		c1.MapMode, c1.MapSeed = ca.MapMode, ca.MapSeed
+		if differs(pair(ca, c1)) {
+			c2 := c1
+			c2.Faults.InChunkSeed = ca.Faults.InChunkSeed
+			if !differs(pair(ca, c2)) {
+				rp, kind = pair(ca, c1), "read-chunking"
+			} else {
+				c3 := c2
+				c3.Faults.EnvSeed = ca.Faults.EnvSeed
+				if !differs(pair(ca, c3)) {
+					rp, kind = pair(ca, c2), "environment"
+				}
+			}
 		}
 	}
 	if kind == "map-order" && (ca.RebuildVariant == 3 || cb.RebuildVariant == 3) && differs(rp) {
@@ -412,7 +429,7 @@ func c19Minimise(tw *toolWorld, seed uint64, idx int, in toolInput, sigs map[str
 			kind = "concurrent-builds"
 		}
 	}
-	if kind == "read-chunking" || kind == "concurrent-builds" {
+	if kind == "read-chunking" || kind == "concurrent-builds" || kind == "environment" {
 		// nothing more to establish
 	} else if !differs(rp) {
 		// 2. history matters: keep the session prefixes
@@ -444,7 +461,7 @@ func c19Minimise(tw *toolWorld, seed uint64, idx int, in toolInput, sigs map[str
 		// fresh processes: nothing replayable, nothing to report
 		return nil
 	}
-	if kind == "map-order" || kind == "read-chunking" || kind == "concurrent-builds" {
+	if kind == "map-order" || kind == "read-chunking" || kind == "concurrent-builds" || kind == "environment" {
 		// 3. reduce the grammar line by line (both target cases carry the same text)
 		setGrammar := func(rp *c19Replay, g []byte) {
 			for s := range rp.Sessions {
